@@ -559,3 +559,78 @@ pub fn check_op_name_case(c: &Case) -> Vec<Violation> {
     }
     v
 }
+
+
+// ---- parameters handed to replacement closures ------------------------------------------------
+// `replace_exported_func` / `replace_imported_func` give the closure a body builder and "the
+// parameters": a body built from them must read parameter slot i for parameter i and declare nothing.
+
+pub fn replace_args_cases() -> Vec<Case> {
+    ["exported", "imported"].iter().map(|w| Case { family: "builder-replace-args".into(), coords: format!("replace_{}_func, closure reads every parameter", w), wasm: vec![], cfg: json!({"replace_args": w}) }).collect()
+}
+
+pub fn check_replace_args_case(c: &Case) -> Vec<Violation> {
+    let which = c.cfg["replace_args"].as_str().unwrap_or("exported").to_string();
+    let src = r#"(module (import "env" "imp" (func $imp (param i32 i64 f32) (result i64)))
+        (func $exp (export "exp") (param i32 i64 f32) (result i64) (local.get 1))
+        (func (export "user") (result i64) (call $imp (i32.const 1) (i64.const 2) (f32.const 3))))"#;
+    let mut v = vec![];
+    let built = catch_unwind(AssertUnwindSafe(|| -> Result<Vec<u8>, String> {
+        let wasm = wgen::stateful::assemble(src)?;
+        let mut m = Module::from_buffer(&wasm).map_err(|e| e.to_string())?;
+        let fill = |b: &mut InstrSeqBuilder, args: &Vec<walrus::LocalId>| {
+            b.local_get(args[2]).drop().local_get(args[0]).drop().local_get(args[1]);
+        };
+        if which == "exported" {
+            let f = m.exports.get_func("exp").map_err(|e| e.to_string())?;
+            m.replace_exported_func(f, |(b, args)| fill(b, args)).map_err(|e| e.to_string())?;
+        } else {
+            let f = m.imports.get_func("env", "imp").map_err(|e| e.to_string())?;
+            m.replace_imported_func(f, |(b, args)| fill(b, args)).map_err(|e| e.to_string())?;
+        }
+        Ok(m.emit_wasm())
+    }));
+    let out = match built {
+        Ok(Ok(o)) => o,
+        Ok(Err(e)) => {
+            v.push(Violation::new("C15", "builder-replace-args-rejected", e, c));
+            return v;
+        }
+        Err(p) => {
+            v.push(Violation::new("C15", format!("builder-census-panic:{}", crate::pipe::norm_panic(&panic_msg(p))), "replace with a closure that reads its parameters panicked", c));
+            return v;
+        }
+    };
+    if let Err(e) = wmodel::validate214(&out, wmodel::FeatureSet::DEFAULT) {
+        v.push(Violation::new("C15", "builder-census-invalid:replace-args", e, c));
+        return v;
+    }
+    let w = match wmodel::decode(&out) {
+        Ok(w) => w,
+        Err(_) => return v,
+    };
+    // the function the closure built: the one exported as `exp` / the one `user` calls
+    let target = if which == "exported" {
+        w.exports.iter().find(|e| e.name == "exp" && e.space == Space::Func).map(|e| e.index)
+    } else {
+        w.exports
+            .iter()
+            .find(|e| e.name == "user" && e.space == Space::Func)
+            .and_then(|e| w.funcs.get(e.index as usize))
+            .and_then(|f| f.body.as_ref())
+            .and_then(|b| b.ops.iter().find_map(|(o, _)| match (o.name, o.imms.first()) { ("Call", Some(Imm::Func(f))) => Some(*f), _ => None }))
+    };
+    let body = match target.and_then(|i| w.funcs.get(i as usize)).and_then(|f| f.body.as_ref()) {
+        Some(b) => b,
+        None => {
+            v.push(Violation::new("C15", "builder-census-subject-lost", "the replacement function is not where the edit should have put it", c));
+            return v;
+        }
+    };
+    let got: Vec<String> = body.ops.iter().map(|(o, _)| o.show()).collect();
+    let reads: Vec<u32> = body.ops.iter().filter_map(|(o, _)| match (o.name, o.imms.first()) { ("LocalGet", Some(Imm::Local(x))) => Some(*x), _ => None }).collect();
+    if reads != vec![2, 0, 1] || !body.locals.is_empty() {
+        v.push(Violation::new("C15", "builder-replace-args-not-the-parameters", format!("a body built from the closure's parameter locals (reads #2, #0, #1) is emitted as {:?} with declared locals {:?}", got, body.locals), c));
+    }
+    v
+}
